@@ -21,6 +21,54 @@ enum Handles {
     Sync(Vec<SyncSender<u64>>),
 }
 
+
+/// one sender thread's program
+fn exec_prog(prog: &[String], handles: &mut Handles, sh: &Shared, tid: usize) {
+    let i = tid - 1;
+    for op in prog {
+        let w: Vec<&str> = op.split_whitespace().collect();
+        match (w[0], &mut *handles) {
+            ("send", Handles::Async(v)) => {
+                if let Some(h) = v.last() {
+                    let r = h.send(w[1].parse().unwrap());
+                    sh.results.lock().unwrap().push(format!("t{} send {} {}", i + 1, w[1], if r.is_ok() { "ok" } else { "err" }));
+                }
+            }
+            ("send", Handles::Sync(v)) => {
+                if let Some(h) = v.last() {
+                    let r = h.send(w[1].parse().unwrap());
+                    sh.results.lock().unwrap().push(format!("t{} send {} {}", i + 1, w[1], if r.is_ok() { "ok" } else { "err" }));
+                }
+            }
+            ("trysend", Handles::Sync(v)) => {
+                if let Some(h) = v.last() {
+                    let r = h.try_send(w[1].parse().unwrap());
+                    sh.results.lock().unwrap().push(format!("t{} trysend {} {}", i + 1, w[1], if r.is_ok() { "ok" } else { "full" }));
+                }
+            }
+            ("clone", Handles::Async(v)) => {
+                if let Some(h) = v.last().cloned() {
+                    v.push(h)
+                }
+            }
+            ("clone", Handles::Sync(v)) => {
+                if let Some(h) = v.last().cloned() {
+                    v.push(h)
+                }
+            }
+            ("drop", Handles::Async(v)) => {
+                let h = v.pop();
+                drop(h);
+            }
+            ("drop", Handles::Sync(v)) => {
+                let h = v.pop();
+                drop(h);
+            }
+            _ => {}
+        }
+            }
+}
+
 fn run_case(name: &str, cap: Option<usize>, progs: Vec<Vec<String>>, ndispatch: usize, schedule: Vec<usize>, out: &mut impl Write) {
     writeln!(out, "case {}", name).unwrap();
     let n = progs.len();
@@ -96,48 +144,7 @@ fn run_case(name: &str, cap: Option<usize>, progs: Vec<Vec<String>>, ndispatch: 
     for (i, (prog, mut handles)) in progs.into_iter().zip(per_thread.into_iter()).enumerate() {
         let sh = shared.clone();
         joins.push(sched.spawn(i + 1, move || {
-            for op in &prog {
-                let w: Vec<&str> = op.split_whitespace().collect();
-                match (w[0], &mut handles) {
-                    ("send", Handles::Async(v)) => {
-                        if let Some(h) = v.last() {
-                            let r = h.send(w[1].parse().unwrap());
-                            sh.results.lock().unwrap().push(format!("t{} send {} {}", i + 1, w[1], if r.is_ok() { "ok" } else { "err" }));
-                        }
-                    }
-                    ("send", Handles::Sync(v)) => {
-                        if let Some(h) = v.last() {
-                            let r = h.send(w[1].parse().unwrap());
-                            sh.results.lock().unwrap().push(format!("t{} send {} {}", i + 1, w[1], if r.is_ok() { "ok" } else { "err" }));
-                        }
-                    }
-                    ("trysend", Handles::Sync(v)) => {
-                        if let Some(h) = v.last() {
-                            let r = h.try_send(w[1].parse().unwrap());
-                            sh.results.lock().unwrap().push(format!("t{} trysend {} {}", i + 1, w[1], if r.is_ok() { "ok" } else { "full" }));
-                        }
-                    }
-                    ("clone", Handles::Async(v)) => {
-                        if let Some(h) = v.last().cloned() {
-                            v.push(h)
-                        }
-                    }
-                    ("clone", Handles::Sync(v)) => {
-                        if let Some(h) = v.last().cloned() {
-                            v.push(h)
-                        }
-                    }
-                    ("drop", Handles::Async(v)) => {
-                        let h = v.pop();
-                        drop(h);
-                    }
-                    ("drop", Handles::Sync(v)) => {
-                        let h = v.pop();
-                        drop(h);
-                    }
-                    _ => {}
-                }
-            }
+            exec_prog(&prog, &mut handles, &sh, i + 1);
             std::mem::forget(handles);
         }));
     }
@@ -189,6 +196,7 @@ fn run_case(name: &str, cap: Option<usize>, progs: Vec<Vec<String>>, ndispatch: 
             StepResult::Done => "done".into(),
             StepResult::Blocked => "blocked".into(),
             StepResult::Skip => "skip".into(),
+            StepResult::Panicked => "panic".into(),
         };
         writeln!(out, "step {} {} {}", t, label, snapshot(&shared)).unwrap();
     }
@@ -198,7 +206,7 @@ fn run_case(name: &str, cap: Option<usize>, progs: Vec<Vec<String>>, ndispatch: 
         for t in (1..=n).chain(std::iter::once(0)) {
             for _ in 0..200 {
                 match sched.step(t) {
-                    StepResult::Done | StepResult::Skip | StepResult::Blocked => break,
+                    StepResult::Done | StepResult::Skip | StepResult::Blocked | StepResult::Panicked => break,
                     _ => {}
                 }
             }
@@ -214,6 +222,98 @@ fn run_case(name: &str, cap: Option<usize>, progs: Vec<Vec<String>>, ndispatch: 
     }
 }
 
+
+/// Uncontrolled runs of the same programs (real races, no parking): the sender threads run freely, the
+/// loop starts dispatching a little later (so that a blocking send is really parked) and goes on until
+/// it has been quiet for a while.  Only the end state is reported; it supports the search for a failing
+/// input and is not compared with the model.
+fn run_race(name: &str, cap: Option<usize>, progs: Vec<Vec<String>>, rounds: usize, out: &mut impl Write) {
+    writeln!(out, "case {}", name).unwrap();
+    for round in 0..rounds {
+        let n = progs.len();
+        let shared = Arc::new(Shared {
+            delivered: Mutex::new(Vec::new()),
+            results: Mutex::new(Vec::new()),
+            epfd: AtomicI32::new(-1),
+            chanfd: AtomicI32::new(-1),
+        });
+        let mut first: Handles;
+        let chan;
+        match cap {
+            None => {
+                let (s, c) = channel::<u64>();
+                first = Handles::Async(vec![s]);
+                chan = c;
+            }
+            Some(k) => {
+                let (s, c) = sync_channel::<u64>(k);
+                first = Handles::Sync(vec![s]);
+                chan = c;
+            }
+        }
+        let mut el: EventLoop<'static, ()> = EventLoop::try_new().unwrap();
+        let sh2 = shared.clone();
+        el.handle()
+            .insert_source(chan, move |ev, _, _| {
+                let s = match ev {
+                    Event::Msg(v) => format!("{}", v),
+                    Event::Closed => "closed".to_string(),
+                };
+                sh2.delivered.lock().unwrap().push(s);
+            })
+            .map_err(|e| e.error)
+            .unwrap();
+        let finished = Arc::new(std::sync::atomic::AtomicUsize::new(0));
+        for (i, prog) in progs.iter().cloned().enumerate() {
+            let mut handles = match &mut first {
+                Handles::Async(v) => Handles::Async(vec![if i + 1 == n { v.pop().unwrap() } else { v[0].clone() }]),
+                Handles::Sync(v) => Handles::Sync(vec![if i + 1 == n { v.pop().unwrap() } else { v[0].clone() }]),
+            };
+            let sh = shared.clone();
+            let fin = finished.clone();
+            std::thread::spawn(move || {
+                exec_prog(&prog, &mut handles, &sh, i + 1);
+                // handles the program left over stay alive (as in the controlled runs)
+                std::mem::forget(handles);
+                fin.fetch_add(1, Ordering::SeqCst);
+            });
+        }
+        drop(first);
+        std::thread::sleep(Duration::from_millis(15));
+        let deadline = std::time::Instant::now() + Duration::from_millis(1500);
+        let mut quiet = 0;
+        while std::time::Instant::now() < deadline {
+            let before = shared.delivered.lock().unwrap().len();
+            el.dispatch(Some(Duration::from_millis(5)), &mut ()).unwrap();
+            let after = shared.delivered.lock().unwrap().len();
+            if after == before && finished.load(Ordering::SeqCst) == n {
+                quiet += 1;
+                if quiet >= 4 {
+                    break;
+                }
+            } else {
+                quiet = 0;
+            }
+        }
+        let mut res = shared.results.lock().unwrap().clone();
+        res.sort();
+        writeln!(
+            out,
+            "race {} finished={} delivered=[{}] results=[{}]",
+            round,
+            finished.load(Ordering::SeqCst),
+            shared.delivered.lock().unwrap().join(","),
+            res.join(";")
+        )
+        .unwrap();
+        if finished.load(Ordering::SeqCst) != n {
+            // a sender is blocked for good: leave it and the loop behind
+            std::mem::forget(el);
+        }
+    }
+    writeln!(out, "final").unwrap();
+}
+
 pub fn run() -> i32 {
     let stdin = std::io::stdin();
     let out = std::io::stdout();
@@ -223,6 +323,7 @@ pub fn run() -> i32 {
     let mut progs: Vec<Vec<String>> = Vec::new();
     let mut nd = 0usize;
     let mut schedule: Vec<usize> = Vec::new();
+    let mut race_rounds = 0usize;
     let parse_prog = |s: &str| -> Vec<String> { s.split(';').map(|x| x.trim().to_string()).filter(|x| !x.is_empty()).collect() };
     for line in stdin.lock().lines() {
         let line = line.unwrap();
@@ -237,6 +338,7 @@ pub fn run() -> i32 {
                 cap = None;
                 progs.clear();
                 nd = 0;
+                race_rounds = 0;
                 schedule.clear();
             }
             "chan" => {
@@ -252,7 +354,14 @@ pub fn run() -> i32 {
             }
             "loop:" => nd = parse_prog(l.splitn(2, ':').nth(1).unwrap_or("")).len(),
             "sched" => schedule = w[1..].iter().filter_map(|x| x.parse().ok()).collect(),
-            "end" => run_case(&name, cap, progs.clone(), nd, schedule.clone(), &mut out),
+            "race" => race_rounds = w[1].parse().unwrap_or(0),
+            "end" => {
+                if race_rounds > 0 {
+                    run_race(&name, cap, progs.clone(), race_rounds, &mut out)
+                } else {
+                    run_case(&name, cap, progs.clone(), nd, schedule.clone(), &mut out)
+                }
+            }
             _ => {}
         }
     }
